@@ -180,6 +180,7 @@ func listReps(thorough bool) []func(key string) attrNode {
 		func(k string) attrNode { return leaf(k, "bytes:ascii") },
 		func(k string) attrNode { return leaf(k, "[]string:3") },
 		func(k string) attrNode { return leaf(k, "time:utc-ns") },
+		func(k string) attrNode { return leaf(k, "time:utc-ns-seen-from-+05:30") }, // the same instant in another zone
 	}
 	if thorough {
 		reps = append(reps,
@@ -208,9 +209,15 @@ func groupShapes() [][]attrNode {
 		group("g", group("h", group("i", l("x"), s("y")), l("z")), l("w")),
 		group("g", group("h1", l("x")), group("h2", l("x"))),
 		group("g", group("h", group("i"))),
+		group("g", l("c"), l("b"), s("a"), l("e"), l("d")), // members out of order, more of them than attributes around the group
 		group("g", l("a1"), group("h", l("a2"), group("i", l("a3"), group("j", l("a4"), group("k", l("a5"), s("a6")), l("z4")), l("z3")), l("z2")), l("z1")), // six levels deep
 	}
 	var out [][]attrNode
+	// one group OBJECT under two different parents of the same record
+	ep := group("endpoint", l("port"), s("host"))
+	ep.Ref = "ep"
+	out = append(out, []attrNode{group("src", ep), group("dst", ep), l("z")})
+	out = append(out, []attrNode{ep, group("via", ep, l("n"))})
 	for _, g := range shapes {
 		out = append(out, []attrNode{g})                 // only
 		out = append(out, []attrNode{g, l("z")})         // first (sorts before z)
